@@ -125,7 +125,10 @@ def extract(tu, sels, recs=(), extra=(), roots=None, overlay=None, calls=()):
             pass
     if not os.path.exists(PIKAFACTS):
         raise AnalysisBroken("extractor %s not built (run setup_cmd)" % PIKAFACTS)
-    cmd = [PIKAFACTS, "--out", out]
+    # several checks may extract the same TU at the same time (they share this cache): write to a private
+    # temporary file and publish it atomically, never delete a published file
+    tmp = "%s.%d.tmp" % (out, os.getpid())
+    cmd = [PIKAFACTS, "--out", tmp]
     for r in roots:
         cmd += ["--root", r]
     for s in sels:
@@ -137,17 +140,20 @@ def extract(tu, sels, recs=(), extra=(), roots=None, overlay=None, calls=()):
     for k, v in (overlay or {}).items():
         cmd += ["--overlay", "%s=%s" % (k, v)]
     cmd += [tu, "--"] + flags
-    if os.path.exists(out):
-        os.unlink(out)
     p = subprocess.run(cmd, capture_output=True, text=True)
-    if p.returncode != 0 or not os.path.exists(out):
+    if p.returncode != 0 or not os.path.exists(tmp):
+        if os.path.exists(tmp):
+            os.unlink(tmp)
         raise AnalysisBroken("pikafacts failed on %s (rc=%s):\n%s" % (tu, p.returncode, p.stderr[-3000:]))
-    with open(out) as f:
+    with open(tmp) as f:
         data = json.load(f)
     deps = {p_: _file_hash(p_) for p_ in data.get("deps", [])}
     deps[tu] = _file_hash(tu)
-    with open(dep, "w") as f:
+    dtmp = "%s.%d.tmp" % (dep, os.getpid())
+    with open(dtmp, "w") as f:
         json.dump(deps, f)
+    os.replace(tmp, out)
+    os.replace(dtmp, dep)
     return data
 
 
